@@ -13,7 +13,7 @@
    choice it can make is one of the choices quantified over here).
 
      submit j into free lane l      : the fields with [w_submit] receive data of job j
-       ... and completes lane c     : (optional) job_in_lane[c] := NULL, the fields with
+       ... and completes lane c     : (optional) the kernel runs, job_in_lane[c] := NULL, the fields with
                                       [c_submit] are zeroed in lane c       (%ifdef SAFE_DATA block
                                       before "return:" of the submit routine)
      flush, good lane g, returns c  : every lane WITHOUT a job first receives a copy of / data
@@ -22,6 +22,10 @@
                                       lanes), lane c is completed, then the SAFE_DATA block zeroes
                                       the fields with [c_flush_ret] in lane c and the fields with
                                       [c_flush_null] in every lane whose job_in_lane is NULL.
+
+   Kernels work on all lanes at once; where that turns the zeroed field of a job-less lane into
+   garbage ([k_junk], e.g. SNOW3G-UEA2 clocking a zero LFSR/FSM) the field becomes [Junk]:
+   something that is a function of no job at all.
 
    Field contents are abstract: [Zero] is the reset image written by ooo_mgr_*_reset() for the
    byte ranges modelled (all ranges are all-zero after reset, the 0x80 / length padding constants
@@ -33,8 +37,9 @@ From Coq Require Import List Bool Arith String.
 Import ListNotations.
 
 Inductive fval : Type :=
-| Zero : fval
-| Data : nat -> fval.
+| Zero : fval            (* the reset image *)
+| Junk : fval            (* job-independent garbage: what a kernel computes when it clocks a zeroed lane *)
+| Data : nat -> fval.    (* something computed from job j *)
 
 Record fspec : Type := mk_fspec {
   f_name       : string;
@@ -43,7 +48,10 @@ Record fspec : Type := mk_fspec {
   c_submit     : bool;  (* SAFE_DATA: zeroed in the returned lane when submit completes a job *)
   c_flush_ret  : bool;  (* SAFE_DATA: zeroed in the returned lane when flush completes a job *)
   c_flush_null : bool;  (* SAFE_DATA: zeroed in every lane without a job at the end of flush *)
-  claim        : bool   (* sensitive: claimed to hold its reset image in every lane without a job *)
+  k_junk       : bool;  (* the kernel processes ALL lanes: in a lane without a job it turns the zeroed field
+                           into job-independent garbage (SNOW3G-UEA2 clocks the zero LFSR/FSM) *)
+  claim        : bool   (* sensitive: claimed to hold its reset image (or, with k_junk, nothing derived
+                           from any job) in every lane without a job *)
 }.
 
 Definition family := list fspec.
@@ -82,6 +90,18 @@ Inductive op : Type :=
 Definition taint_null (fam : family) (jg : nat) (s : state) : state :=
   map (fun ln => if is_free ln then mk_lane None (upd fam t_flush (Data jg) (l_fld ln)) else ln) s.
 
+(* a kernel pass over a lane without a job: zeroed k_junk fields become garbage (data that a flush
+   copied there stays data) *)
+Fixpoint junk (fam : family) (vals : list fval) : list fval :=
+  match fam, vals with
+  | f :: fam', x :: vals' =>
+      (if k_junk f then match x with Data j => Data j | _ => Junk end else x) :: junk fam' vals'
+  | _, _ => vals
+  end.
+
+Definition junk_null (fam : family) (s : state) : state :=
+  map (fun ln => if is_free ln then mk_lane None (junk fam (l_fld ln)) else ln) s.
+
 Definition clear_null (fam : family) (s : state) : state :=
   map (fun ln => if is_free ln then mk_lane None (upd fam c_flush_null Zero (l_fld ln)) else ln) s.
 
@@ -95,10 +115,12 @@ Definition step (fam : family) (s : state) (o : op) : option state :=
             match oc with
             | None => Some s1
             | Some c =>
-                match nth_error s1 c with
+                (* the kernel runs (on all lanes) until lane c is done *)
+                let s2 := junk_null fam s1 in
+                match nth_error s2 c with
                 | Some lc =>
                     if is_free lc then None
-                    else Some (set_nth s1 c (mk_lane None (upd fam c_submit Zero (l_fld lc))))
+                    else Some (set_nth s2 c (mk_lane None (upd fam c_submit Zero (l_fld lc))))
                 | None => None
                 end
             end
@@ -110,7 +132,7 @@ Definition step (fam : family) (s : state) (o : op) : option state :=
       | Some lg, Some lc =>
           match l_job lg, l_job lc with
           | Some jg, Some _ =>
-              let s1 := taint_null fam jg s in
+              let s1 := junk_null fam (taint_null fam jg s) in
               let s2 := set_nth s1 c (mk_lane None (upd fam c_flush_ret Zero (l_fld lc))) in
               Some (clear_null fam s2)
           | _, _ => None
@@ -128,11 +150,13 @@ Fixpoint run (fam : family) (s : state) (ops : list op) : option state :=
                  end
   end.
 
-(* every claimed field holds the reset image *)
+(* every claimed field holds the reset image (or job-independent garbage where the kernel clocks
+   zeroed lanes) *)
 Fixpoint clean (fam : family) (vals : list fval) : Prop :=
   match fam, vals with
   | [], [] => True
-  | f :: fam', v :: vals' => (claim f = true -> v = Zero) /\ clean fam' vals'
+  | f :: fam', v :: vals' =>
+      (claim f = true -> v = Zero \/ (k_junk f = true /\ v = Junk)) /\ clean fam' vals'
   | _, _ => False
   end.
 
@@ -140,7 +164,7 @@ Fixpoint clean (fam : family) (vals : list fval) : Prop :=
 Fixpoint owned (fam : family) (j : nat) (vals : list fval) : Prop :=
   match fam, vals with
   | [], [] => True
-  | f :: fam', v :: vals' => (claim f = true -> v = Zero \/ v = Data j) /\ owned fam' j vals'
+  | f :: fam', v :: vals' => (claim f = true -> v = Zero \/ v = Junk \/ v = Data j) /\ owned fam' j vals'
   | _, _ => False
   end.
 
@@ -164,12 +188,14 @@ Definition fspec_ok (f : fspec) : bool :=
 Definition family_ok (fam : family) : bool := forallb fspec_ok fam.
 
 (* executable versions, used by the examples and by the per-instance checks *)
-Definition fval_is_zero (v : fval) : bool := match v with Zero => true | Data _ => false end.
+Definition fval_is_zero (v : fval) : bool := match v with Zero => true | _ => false end.
+Definition fval_is_junk (v : fval) : bool := match v with Junk => true | _ => false end.
 
 Fixpoint cleanb (fam : family) (vals : list fval) : bool :=
   match fam, vals with
   | [], [] => true
-  | f :: fam', v :: vals' => implb (claim f) (fval_is_zero v) && cleanb fam' vals'
+  | f :: fam', v :: vals' =>
+      implb (claim f) (fval_is_zero v || (k_junk f && fval_is_junk v)) && cleanb fam' vals'
   | _, _ => false
   end.
 
